@@ -13,16 +13,27 @@ import numpy as np
 META = dict(
     id='C28',
     level_text='Kernel-checked invariant theorems for the occ/chemorder state machine (any cell size, species count and '
-               'edit), with the setocc species guard translated from the source on every run and the whole op language '
-               'run differentially against real Supercell objects; unbounded in history for setocc/fill/POSCAR_occ, '
-               'imul/reorder covered by correspondence and the direct __sane__ oracle.',
+               'history), now for the WHOLE op language: setocc/fill/POSCAR_occ, group operations carrying a site '
+               'permutation (imul/mul: every value lands at its image), reorder (a mapping accepted by __sane__ is proved '
+               'to be a genuine permutation of every species list, given one map per species), copy, and the POSCAR round '
+               'trip (reproduces occupation and presentation order exactly); run_inv: every cell of every store reachable '
+               'by any op list stays consistent, hence passes the source\'s __sane__ (reachable_sane). The setocc species '
+               'guard is translated from the source on every run and the whole op language is run differentially against '
+               'real Supercell objects. Not covered by the theorems (counterexample proved in C28More.lean): reorder with '
+               'fewer maps than species, which zip-truncates chemorder while still passing __sane__.',
     level_note='Trusted: Lean kernel + standard axioms; the ast translator of the guard; the harness. Modelled not verified: '
                'numpy indexing, Supercell.index position lookup and float parsing in POSCAR_occ.',
-    technique='Lean 4 invariant proof by induction over edits + ast-translated guard obligation + differential op sequences',
-    lean_modules=['OnsagerModel.C28', 'OnsagerProofs.C28', 'Generated.C28Facts', 'OnsagerProofs.C28Tie'],
+    technique='Lean 4 invariant proof by induction over the op language + ast-translated guard obligation + differential op sequences',
+    lean_modules=['OnsagerModel.C28', 'OnsagerProofs.C28', 'OnsagerProofs.C28More', 'Generated.C28Facts',
+                  'OnsagerProofs.C28Tie'],
     theorems=['Onsager.C28.empty_inv', 'Onsager.C28.setocc_inv', 'Onsager.C28.setocc_ok_of_declared',
               'Onsager.C28.setocc_rejects', 'Onsager.C28.setoccMany_inv', 'Onsager.C28.fill_inv',
-              'Onsager.C28.poscarOcc_inv'],
+              'Onsager.C28.poscarOcc_inv',
+              'Onsager.C28.imul_occ', 'Onsager.C28.imul_chemorder', 'Onsager.C28.imul_inv',
+              'Onsager.C28.inv_sane', 'Onsager.C28.sane_inv', 'Onsager.C28.inv_iff_sane',
+              'Onsager.C28.reorder_perm', 'Onsager.C28.reorder_inv', 'Onsager.C28.reorder_rejects',
+              'Onsager.C28.setoccMany_vacant', 'Onsager.C28.poscar_roundtrip',
+              'Onsager.C28.applyOp_inv', 'Onsager.C28.run_inv', 'Onsager.C28.reachable_sane'],
     tie_theorems=['Onsager.C28.src_guard_is_spec', 'Onsager.C28.src_setocc_eq_spec'],
     rule='op sequences on real Supercell objects (bounded-exhaustive over setocc with species -2..Nchem+1 on a '
          '2-site cell, then random sequences of setocc/setitem/fillperiodic/imul/mul/reorder/copy/POSCAR on '
